@@ -73,11 +73,47 @@ def corpus_cases():
     return out
 
 
+def ref_probe(ctx):
+    """prototype lists with void(T &) before void(T): the callbacks an event reaches do not depend on which call consumes it
+    (harness/heter_ref.cpp: the same history consumed by process / processOne / processIf)"""
+    path, err = vlib.build_cpp(ctx, 'heter_ref', 'heter_ref.cpp')
+    if path is None:
+        raise RuntimeError('harness heter_ref.cpp does not compile against the repository: %s' % err[-1500:])
+    r = ctx.rng.fork()
+    cases = []
+    for i in range(ctx.budget(120, 2000)):
+        n = r.range(1, 9)
+        cases.append(' '.join(('s%d' if r.chance(65) else 'i%d') % (100 * i + j) for j in range(n)))
+    text = ''.join('case %d\nops: %s\nend\n' % (i, c) for i, c in enumerate(cases))
+    rc, out, errt = vlib.sh([path], input=text, timeout=300)
+    cur, res = None, {}
+    for l in out.splitlines():
+        if l.startswith('case '):
+            cur = l.split()[1]
+            res[cur] = {}
+        elif cur is not None and l[:2] in ('A ', 'B ', 'C '):
+            res[cur][l[0]] = l[2:].strip()
+    bad = [i for i in range(len(cases)) if len(set(res.get(str(i), {'A': 0, 'B': 1}).values())) != 1 or len(res.get(str(i), {})) != 3]
+    if rc != 0 and not bad:
+        bad = [0]
+    for i in bad[:1]:
+        rr = res.get(str(i), {})
+        # shortest failing history first
+        j = min(bad, key=lambda k: len(cases[k]))
+        rr = res.get(str(j), {})
+        ctx.violation('case %d\nops: %s\nend\n# harness: heter_ref (HeterTuple<void(std::string &), void(std::string), void(int)>)\n'
+                      '# consumed by process()      : %s\n# consumed by processOne()   : %s\n# consumed by processIf, ... : %s\n%s'
+                      % (j, cases[j], rr.get('A'), rr.get('B'), rr.get('C'), ('# stderr: ' + errt[-400:] + '\n') if rc != 0 else ''),
+                      'HeterEventQueue: the callbacks a queued event reaches depend on the call that consumes it (prototypes differing in value category)')
+    return {'ref_probe_histories': len(cases), 'ref_probe_mismatches': len(bad)}
+
+
 def run(ctx):
     proof = vlib.coq_prove(ctx, FILES)
     names = THOROUGH_VARIANTS if ctx.tier == 'thorough' else QUICK_VARIANTS
     bins = build_variants(ctx, names)
     tables_ok = check_tables(ctx, bins)
+    probe = ref_probe(ctx)
     n = ctx.budget(1500, 40000)
     cases = corpus_cases()
     ncorpus = len(cases)
@@ -121,7 +157,7 @@ def run(ctx):
         'traces_validated_against_impl': tot['compared'], 'disagreements': tot['disagreements'], 'per_variant': per_variant,
         'variants': {v: '%s -std=%s %s' % (hd.VARIANTS[v]['compiler'], hd.VARIANTS[v]['std'], ' '.join(hd.VARIANTS[v]['defs'])) for v in names},
         'model_error_discarded': tot['model_error_discarded'], 'model_slot_errors': tot['model_sloterror'],
-        'generator_histogram': hist, 'case_features': tot['features'],
+        'generator_histogram': hist, 'case_features': tot['features'], 'value_category_probe': probe,
         'header_sha': {h: vlib.sha(os.path.join(vlib.REPO, 'include/eventpp', h))
                        for h in ('hetercallbacklist.h', 'hetereventdispatcher.h', 'hetereventqueue.h', 'internal/hetercallbacklist_i.h', 'internal/eventpolicies_i.h')},
     })
@@ -134,6 +170,17 @@ def run(ctx):
 
 
 def replay(ctx, path):
+    text = open(path).read()
+    if '\nops:' in text:
+        # a history of the value-category probe (harness/heter_ref.cpp)
+        b, err = vlib.build_cpp(ctx, 'heter_ref', 'heter_ref.cpp')
+        if b is None:
+            raise RuntimeError('harness heter_ref.cpp does not compile against the repository: %s' % err[-1500:])
+        case = ''.join(l + '\n' for l in text.splitlines() if l and not l.startswith('#'))
+        rc, out, _ = vlib.sh([b], input=case, timeout=120)
+        print(out.strip())
+        got = [l[2:].strip() for l in out.splitlines() if l[:2] in ('A ', 'B ', 'C ')]
+        return 0 if (rc == 0 and len(got) == 3 and len(set(got)) == 1) else 1
     built = {}
 
     def build(vname):
